@@ -26,7 +26,7 @@ ASSUMPTIONS = [
 ]
 REQUIRED_CLASSES = ["nontrivial", "accept", "reject", "zero_area_rect", "zero_length", "vertical", "horizontal",
                     "near_edge_ulp", "both_outside_accept", "one_inside", "both_inside", "large_offset",
-                    "corner_region", "through_corner", "second_call_same_arguments", "points_as_tuples"]
+                    "corner_region", "through_corner", "second_call_same_arguments", "points_as_tuples", "corner_sweep_lines"]
 QUICK_SHARDS = 4
 
 plot_utils = sut.load("plot_utils")
@@ -279,6 +279,53 @@ def cases(draw):
     return case
 
 
+def corner_sweep_body(ctx, case):
+    """Bulk sweep of real-valued lines aimed at a rectangle corner with both ends outside - the geometry in which
+    the two clips of one endpoint can disagree by an ulp and starve the other endpoint of its clip.  Each line is
+    first judged by a cheap float predicate with a generous margin (returned ends inside the rectangle grown by
+    1e-6 of the scale and within 1e-6 of the input line); only a suspect goes to the exact oracle, and only the
+    exact oracle's verdict is reported."""
+    import random
+    rng = random.Random(case["seed"])              # the seed itself is drawn by Hypothesis
+    n = case["count"]
+    suspects = 0
+    for _ in range(n):
+        scale = 10.0 ** rng.randint(-2, 3)
+        xmin, ymin = rng.uniform(-1, 1) * scale, rng.uniform(-1, 1) * scale
+        xmax, ymax = xmin + rng.uniform(0.05, 1) * scale, ymin + rng.uniform(0.05, 1) * scale
+        cx, cy = rng.choice([(xmin, ymin), (xmin, ymax), (xmax, ymin), (xmax, ymax)])
+        ang = rng.uniform(0, math.pi)
+        dx, dy = math.cos(ang), math.sin(ang)
+        t1, t2 = rng.uniform(0.1, 3) * scale, rng.uniform(0.1, 3) * scale
+        # nudge the aim point by a few ulps so that the line passes the corner on either side
+        ax = cx + rng.randint(-4, 4) * math.ulp(cx if cx else scale)
+        ay = cy + rng.randint(-4, 4) * math.ulp(cy if cy else scale)
+        seg = [[ax - t1 * dx, ay - t1 * dy], [ax + t2 * dx, ay + t2 * dy]]
+        rect = [[xmin, ymin], [xmax, ymax]]
+        try:
+            accept, out = plot_utils.clip_segment([list(seg[0]), list(seg[1])], [list(rect[0]), list(rect[1])])
+        except Exception:  # pylint: disable=broad-except
+            accept, out = None, None
+        suspect = accept is None
+        if accept:
+            margin = 1e-6 * scale
+            length = math.hypot(seg[1][0] - seg[0][0], seg[1][1] - seg[0][1])
+            for px, py in out:
+                off_line = abs((px - seg[0][0]) * (seg[1][1] - seg[0][1]) - (py - seg[0][1]) * (seg[1][0] - seg[0][0]))
+                if not (xmin - margin <= px <= xmax + margin and ymin - margin <= py <= ymax + margin) \
+                        or off_line > margin * length:
+                    suspect = True
+        ctx.evaluations += 1
+        ctx.classes["corner_sweep_lines"] += 1
+        if suspect:
+            suspects += 1
+            once(ctx, {"seg": seg, "rect": rect, "ulp": True, "offset": False, "corner": True})
+    ctx.count("corner_sweep_suspects_sent_to_exact_oracle", suspects)
+
+
+CORNER_SWEEP = st.fixed_dictionaries({"seed": st.integers(0, 2 ** 32), "count": st.just(2000)})
+
+
 def lattice_grid():
     """Every segment between lattice points of a 7x7 grid against a fixed 2x2 box and three
     degenerate boxes (exact float arithmetic; all 81 region-code pairs occur)."""
@@ -300,10 +347,14 @@ def run(ctx):
     ctx.exhaustive("lattice-grid", lattice_grid(), body,
                    "all 49x49 lattice segments x {2x2 box, vertical, horizontal, point rectangle}")
     ctx.given("generated", cases(), body, quick=8000, thorough=1200000)
+    ctx.given("corner-sweep", CORNER_SWEEP, corner_sweep_body, quick=500, thorough=16000)
     if ctx.thorough and ctx.shard == 0:
         from pbt.fuzz import driver
         driver.run_stage(ctx, "c08_clip", runs=100000, max_len=4096)
 
 
 def replay(ctx, part, case):
+    if "seed" in case and "count" in case:
+        corner_sweep_body(ctx, case)
+        return
     body(ctx, case)
